@@ -273,7 +273,7 @@ def c08(rec):
     return out
 
 
-ORACLES = {'C01': c01, 'C03': c03, 'C04': c04, 'C05': c05, 'C06': c06, 'C07': c07, 'C08': c08}
+ORACLES = {'C02': (lambda rec: []), 'C01': c01, 'C03': c03, 'C04': c04, 'C05': c05, 'C06': c06, 'C07': c07, 'C08': c08}
 
 
 def run_oracle(pid, trace):
